@@ -18,7 +18,7 @@ RULE = ("inputs: example files (both versions), generated LASFiles (C03 generato
         "layout option.")
 ASSUMPTIONS = [
     "an input that cannot be read, or cannot be written under either configuration, is rejected (outside the property)",
-    "sources with text samples containing blanks (open finding D17) are excluded by construction and counted",
+    "sources with text samples the writer cannot quote (both quote characters: open finding D41) are excluded by construction and counted",
 ]
 
 SKIP = {("Version", "VERS"), ("Version", "WRAP")}
@@ -26,7 +26,7 @@ LAYOUT_KEYS = ("len_numeric_field", "spacer", "lhs_spacer", "data_width", "heade
 
 
 def oracle(case):
-    from checks.c11 import numeric_unit, text_with_blanks
+    from checks.c11 import numeric_unit, text_unquotable, text_with_blanks
 
     out = Outcome()
     src = case["src"]
@@ -42,10 +42,12 @@ def oracle(case):
             out.rejected = True
             out.cls("unreadable")
             return out
-        if text_with_blanks(las):
+        if text_unquotable(las):
             out.excluded = True
             out.cls("excluded-open-finding")
             return out
+        if text_with_blanks(las):
+            out.cls("text-sample-with-blanks")
         for name, sec in las.sections.items():
             if not isinstance(sec, str):
                 for it in sec:
